@@ -130,6 +130,9 @@ fn shrink_string(s: &str, fails: &mut dyn FnMut(&str) -> bool) -> String {
 }
 
 pub fn probe_string(ctx: &mut Ctx, f: Fmt, s: &str, family: &str) {
+    if ctx.report.evaluations % 400 == 0 {
+        something_fails_first((ctx.report.evaluations / 400) as usize);
+    }
     ctx.journal.about_to(&format!("C05|{}", f.name()), s);
     ctx.report.eval();
     ctx.report.bump(&format!("family.{}", family));
@@ -430,6 +433,12 @@ pub fn run(ctx: &mut Ctx) {
             let mut rng = ctx.rng(0xC05C);
             let mut texts: Vec<String> = (0..24).map(|_| g.wellformed(&mut rng, 3)).collect();
             texts.extend(["", "(", "{A,", "<A --> B>", "A", "(*, A, B)"].iter().map(|s| s.to_string()));
+            // (long inputs of many different lengths, cheap to parse: a shared pool of input buffers that is
+            // only used above some size has to hand out, take back and drop buffers all the time)
+            for i in 0..24usize {
+                let base = g.wellformed(&mut rng, 2);
+                texts.push(format!("{}{}{}", " ".repeat(40 + 37 * i), base, " ".repeat(17 * (i % 5))));
+            }
             let texts = std::sync::Arc::new(texts);
             let rounds = if ctx.thorough { 30 } else { 2 };
             for round in 0..rounds {
